@@ -117,6 +117,41 @@ def parseIn : List String → Option WsIn
   | ["eof"] => some .eof
   | _ => none
 
+/-- The application calls that may appear inside a `batch`. -/
+def parseCall : List String → Option Mux.Op
+  | ["open", req, host, port] =>
+    match req.toNat?, ofHex host, port.toNat? with
+    | some req, some host, some port => some (.open req host port)
+    | _, _, _ => none
+  | ["accept"] => some .accept
+  | ["write", h, d] =>
+    match h.toNat?, ofHexZ d with
+    | some h, some d => some (.write h d)
+    | _, _ => none
+  | ["read", h, k] =>
+    match h.toNat?, k.toNat? with
+    | some h, some k => some (.read h k)
+    | _, _ => none
+  | ["shutdown", h] => h.toNat?.map .shutdown
+  | ["dropstream", h] => h.toNat?.map .dropStream
+  | ["dgsend", fid, host, port, d] =>
+    match fid.toNat?, ofHex host, port.toNat?, ofHex d with
+    | some fid, some host, some port, some d => some (.sendDgram { fid := fid, host := host, port := port, data := d })
+    | _, _, _, _ => none
+  | ["dgrecv"] => some .recvDgram
+  | ["bindnext"] => some .bindNext
+  | ["cancelopen", req] => req.toNat?.map .cancelOpen
+  | _ => none
+
+/-- Split a token list at the separator `;`. -/
+def splitCalls : List String → List (List String)
+  | [] => [[]]
+  | ";" :: rest => [] :: splitCalls rest
+  | t :: rest =>
+    match splitCalls rest with
+    | [] => [[t]]
+    | c :: cs => (t :: c) :: cs
+
 def step (st : St) (line : String) : St × String :=
   match tokens line with
   | ["reset"] => ([], "ok")
@@ -162,6 +197,12 @@ def step (st : St) (line : String) : St × String :=
       | "dropstream", [h] =>
         match h.toNat? with
         | some h => run1 st n e (.dropStream h)
+        | none => (st, "bad-op")
+      | "batch", toks =>
+        match (splitCalls toks).mapM parseCall with
+        | some ops =>
+          let r := applyBatch e ops
+          (putEP st n r.1, " , ".intercalate (r.2.1.map showRes) ++ " | " ++ "; ".intercalate (r.2.2.map showEv))
         | none => (st, "bad-op")
       | "dropmany", hs =>
         match hs.mapM (·.toNat?) with
